@@ -773,13 +773,14 @@ class PolytopeCheck(Check):
                 # what the caller looks at after the subdivision is part of the history: getters may fill caches
                 ops.append({"op": "divide", "inst": i, "observe": rng.choice(["all", "all", "nodes", "none", "none"])})
             elif r < 0.6:
-                ops.append({"op": "nodes", "inst": i, "frac": rng.choice([None, None, 0.0, 0.3, 0.7, 1.0]),
+                ops.append({"op": "nodes", "inst": i, "frac": rng.choice([None, None, 0.0, 0.3, 0.7, 1.0, "abs", "abs"]),
+                            "n_abs": rng.choice([1, 2, 3, 5, 12, rng.randint(1, 60)]),
                             "projection": rng.random() < 0.5})
             elif r < 0.7:
                 ops.append({"op": "too_many", "inst": i, "extra": rng.choice([1, 2, 100])})
             elif kind == "cube4D":
-                ops.append({"op": "half", "inst": i, "frac": rng.choice([None, None, 0.25, 0.5, 1.0]),
-                            "projection": rng.random() < 0.5})
+                ops.append({"op": "half", "inst": i, "frac": rng.choice([None, None, 0.25, 0.5, 1.0, "abs", "abs"]),
+                            "n_abs": rng.randint(1, 272), "projection": rng.random() < 0.5})
             else:
                 ops.append({"op": "nodes", "inst": i, "frac": None, "projection": False})
         # make sure the deepest level is reached in some runs
@@ -956,11 +957,17 @@ class PolytopeCheck(Check):
                                                         with_projection=(obs == "all"))
                         log.add(f"poly{i}", "divide", [levels[i], obs], digest_any(nodes))
                 elif op["op"] == "nodes":
-                    nodes, proj = self._check_instance(kind, poly, levels[i], logs[i], what)
-                    n = len(nodes)
-                    N = None if op["frac"] is None else max(0, min(n, int(round(op["frac"] * n))))
+                    n = EXPECTED_COUNT[kind](levels[i])
+                    if op["frac"] is None:
+                        N = None
+                    elif op["frac"] == "abs":
+                        N = max(1, min(n, op.get("n_abs", 1)))
+                    else:
+                        N = max(0, min(n, int(round(op["frac"] * n))))
+                    # the requested call comes FIRST (it may be the first getter on this level), the full check after it
                     with lib_call(what + f" get_nodes(N={N}, projection={op['projection']})"):
-                        part = np.asarray(poly.get_nodes(N=N, projection=op["projection"]))
+                        part = np.array(poly.get_nodes(N=N, projection=op["projection"]), copy=True)
+                    nodes, proj = self._check_instance(kind, poly, levels[i], logs[i], what)
                     full = proj if op["projection"] else nodes
                     exp = full if N is None else full[:N]
                     if N == 0:
@@ -983,14 +990,19 @@ class PolytopeCheck(Check):
                     self._check_instance(kind, poly, levels[i], logs[i], what + " after an oversized request")
                     log.add(f"poly{i}", "too_many", op["extra"])
                 elif op["op"] == "half":
+                    n = EXPECTED_COUNT[kind](levels[i])
+                    if op["frac"] is None:
+                        N = None
+                    elif op["frac"] == "abs":
+                        N = max(1, min(n // 2, op.get("n_abs", 1)))
+                    else:
+                        N = max(1, int(round(op["frac"] * (n // 2))))
+                    with lib_call(what + f" get_half_of_hypercube(N={N}, projection={op['projection']})"):
+                        part = np.array(poly.get_half_of_hypercube(N=N, projection=op["projection"]), copy=True)
                     nodes, proj = self._check_instance(kind, poly, levels[i], logs[i], what)
-                    n = len(nodes)
                     with lib_call(what + " get_half_of_hypercube()"):
                         half_all = np.asarray(poly.get_half_of_hypercube(projection=False))
                     self._check_half(nodes, half_all, what)
-                    N = None if op["frac"] is None else max(1, int(round(op["frac"] * (n // 2))))
-                    with lib_call(what + f" get_half_of_hypercube(N={N}, projection={op['projection']})"):
-                        part = np.asarray(poly.get_half_of_hypercube(N=N, projection=op["projection"]))
                     exp = half_all if N is None else half_all[:N]
                     if op["projection"]:
                         exp = exp / np.linalg.norm(exp, axis=1)[:, None]
